@@ -15,10 +15,11 @@
    every output accepted by fluentdforward VerifyConfig; the two repairs of this property in place.
    [ginv] / [cinv] = the state invariant of the agent / of one connection (hold initially: C07_initial_state). *)
 From SV Require Import Model.Common.
-From SV Require Model.Utf8 Model.Parser Model.Transforms Model.Routing Model.Serializer Model.PipelineSerializer
-               Model.Packer Model.Framing Spec.SyslogSpec Spec.FramingSpec Spec.SerializerSpec Spec.MsgpackSpec
+From SV Require Model.Utf8 Model.Parser Model.ParseTime Model.Transforms Model.Routing Model.Serializer Model.PipelineSerializer
+               Model.Packer Model.Framing Spec.Utf8Spec Spec.SyslogSpec Spec.FramingSpec Spec.SerializerSpec Spec.MsgpackSpec
                Proofs.ParserProofs Proofs.PipelineSerializerProofs Proofs.TagTemplateProofs.
 From SV Require Import Model.Pipeline Proofs.PipelineProofs Proofs.PipelineWitnesses.
+From SV Require Import Model.PipelineVariants Proofs.PipelineFollowup.
 
 (* 1. pipeline_total.  For every accepted configuration, every reachable state of the agent and of the connection
    (so: whatever was received before, on this or any other connection) and EVERY byte string presented as a record:
@@ -275,3 +276,125 @@ Theorem C07_example_two_outputs :
   end.
 Proof. exact ex2_run. Qed.
 Print Assumptions C07_example_two_outputs.
+
+(* ================================================================================================ *)
+(* Follow-up (wave-2 misses 4 and 5): the two mechanisms the totality theorems take for granted.       *)
+
+(* 11. Record starts (recordtest.go TestRecordStart, modelled by C08's Framing.test_record_start): EVERY line that
+   begins "<" 1-3 digits ">1 " and has at least 32 bytes is a record start - whatever byte follows the header (the
+   "-" of a NIL timestamp, a letter, a space, 0xFF ...) and whatever comes after it. *)
+Theorem C07_record_start_every_header :
+  forall (ds : bytes) (c : N) (rest : bytes),
+  (1 <= length ds <= 3)%nat -> Forall (fun d => is_digit d = true) ds ->
+  (32 <= length (60%N :: ds ++ 62%N :: 49%N :: 32%N :: c :: rest))%nat ->
+  F.trs (60%N :: ds ++ 62%N :: 49%N :: 32%N :: c :: rest) = true.
+Proof. exact header_any_byte_is_start. Qed.
+Print Assumptions C07_record_start_every_header.
+
+(* 12. Every record SENT is accounted for.  [sent_line b l]: l has the header shape above, no newline, at most b bytes
+   - a statement about what the client sends, not about the reader's predicate.  A connection whose text consists of
+   such lines (any fragmentation, any read timing): the parser is handed exactly these lines, in order and unaltered
+   (none glued onto its neighbour, none lost); one result per line; exactly the malformed ones are rejected; the input
+   counters of the connection add up to the number of lines: delivered or counted as dropped, nothing vanishes. *)
+Theorem C07_every_sent_record_accounted :
+  forall (O : T.oracles) cfg g now clk b (ls : list bytes) evs,
+  config_ok O cfg -> ginv O cfg g ->
+  (1 <= record_limit cfg)%nat ->
+  (2 * b + 1 + record_limit cfg <= Nat.max (c_linebuf cfg) (record_limit cfg * 3))%nat ->
+  Forall (sent_line b) ls ->
+  FramingSpec.ops_text (F.conn_ops evs) = FramingSpec.unlines ls ->
+  conn_records cfg evs = Ok ls /\
+  exists g' c rs,
+    conn_run O cfg g now clk evs = Ok (g', c, rs) /\
+    ginv O cfg g' /\
+    length rs = length ls /\
+    map is_drop_parse rs = map (malformed cfg) ls /\
+    (Ps.passed_n (cs_input c) + Ps.dropped_n (cs_input c) = N.of_nat (length ls))%N /\
+    (N.of_nat (length (filter (malformed cfg) ls)) <= Ps.dropped_n (cs_input c))%N.
+Proof. exact every_sent_record_accounted. Qed.
+Print Assumptions C07_every_sent_record_accounted.
+
+(* 13. The variant of TestRecordStart that additionally wants a digit after "<PRI>1 " (Model/PipelineVariants.v) does
+   NOT have this property: the NIL-timestamp record rec_good2 is a [sent_line]; the real reader delivers
+   good, NIL, good as three records and the NIL record alone as one; the variant glues the NIL record onto the
+   well-formed record before it and loses it altogether when it is alone on the connection. *)
+Theorem C07_record_start_digit_variant_refuted :
+  sent_line 96 rec_good2 /\
+  F.trs rec_good2 = true /\ trs_digit rec_good2 = false /\
+  conn_records_with F.trs (ex_cfg true true) [F.EvData (FramingSpec.unlines [rec_good1; rec_good2; rec_good1]) false; F.EvClose]
+  = Ok [rec_good1; rec_good2; rec_good1] /\
+  conn_records_with F.trs (ex_cfg true true) [F.EvData (FramingSpec.unlines [rec_good2]) false; F.EvClose] = Ok [rec_good2] /\
+  conn_records_with trs_digit (ex_cfg true true) [F.EvData (FramingSpec.unlines [rec_good1; rec_good2; rec_good1]) false; F.EvClose]
+  = Ok [rec_good1 ++ F.NL :: rec_good2; rec_good1] /\
+  conn_records_with trs_digit (ex_cfg true true) [F.EvData (FramingSpec.unlines [rec_good2]) false; F.EvClose] = Ok [].
+Proof. exact trs_digit_variant_refuted. Qed.
+Print Assumptions C07_record_start_digit_variant_refuted.
+
+(* 14. Label values (base.MetricLabelValues): for EVERY list of key values - any length, any bytes - each label value
+   is valid UTF-8, there is one per key, valid values are handed on unchanged, and WithLabelValues does not panic. *)
+Theorem C07_label_values_valid_utf8 :
+  forall vs : list bytes,
+  Forall Utf8Spec.valid_utf8 (metric_label_values true vs) /\
+  length (metric_label_values true vs) = length vs /\
+  (Forall Utf8Spec.valid_utf8 vs -> metric_label_values true vs = vs) /\
+  with_label_values (metric_label_values true vs) = Ok tt.
+Proof. exact label_values_spec. Qed.
+Print Assumptions C07_label_values_valid_utf8.
+
+(* 15. The variant that cuts the cleaned value to n bytes by byte slicing is refuted for EVERY cap n >= 1: the value
+   "h" x (n-1) + "ä" is valid UTF-8 and accepted as it is by the real function, but the variant's label value ends in
+   the lone lead byte C3 and WithLabelValues panics.  (n = 200: a 201-byte host name.) *)
+Theorem C07_label_cut_variant_refuted :
+  forall n, (1 <= n)%nat ->
+  Utf8.valid (straddling_value n) = true /\
+  metric_label_values true [straddling_value n] = [straddling_value n] /\
+  with_label_values (metric_label_values true [straddling_value n]) = Ok tt /\
+  with_label_values (metric_label_values_cut n [straddling_value n]) = Panic site_label.
+Proof. exact label_cut_variant_refuted. Qed.
+Print Assumptions C07_label_cut_variant_refuted.
+
+Theorem C07_label_cut_200_variant_refuted :
+  Utf8.valid (straddling_value 200) = true /\ length (straddling_value 200) = 201%nat /\
+  with_label_values (metric_label_values_cut 200 [straddling_value 200]) = Panic site_label.
+Proof. exact label_cut_200_refuted. Qed.
+Print Assumptions C07_label_cut_200_variant_refuted.
+
+(* ================================================================================================ *)
+(* Follow-up (wave-3 miss 7): the parseTime step, through the model of parseFractionNanos.            *)
+
+(* 16. C07_pipeline_total runs C13's transform_parse_time inside [run_parse_time]; stated on its own: for EVERY byte
+   string in the time field (every fraction length, every zone form, truncated, over-long ...) the transform is not a
+   panic; for every record whose field array holds the key, the step returns normally and keeps the array; and the
+   model of parseFractionNanos itself (a fixed nine-iteration loop, no indexing) never panics. *)
+Theorem C07_parse_time_step_total :
+  (forall local_off (v : bytes),
+     match ParseTime.transform_parse_time local_off v with ParseTime.TpPanic _ => False | _ => True end) /\
+  (forall local_off loc label cs (p : prec),
+     (loc < length (T.r_fields (fst p)))%nat ->
+     exists cs' p', run_parse_time local_off loc label cs p = Ok (cs', p') /\
+                    length (T.r_fields (fst p')) = length (T.r_fields (fst p))) /\
+  (forall frac, match ParseTime.parse_fraction_nanos frac with Panic _ => False | _ => True end).
+Proof. exact (conj parse_time_value_total (conj parse_time_step_total parse_fraction_total)). Qed.
+Print Assumptions C07_parse_time_step_total.
+
+(* 17. The variant of parseFractionNanos that scales by a ten-entry table with the guard "len(digits) > len(table)"
+   (Model/PipelineVariants.v): it PANICS for every fraction of exactly ten characters, and is the real function for every
+   other length - the defect lives in one length class.  Witness through the whole transform and the whole pipeline:
+   "2019-08-15T15:50:49.1234567891+03:00" is parsed by the real transform (record delivered) and is an index-out-of-range
+   panic in the variant; nine and eleven digits pass in the variant. *)
+Theorem C07_fraction_table_variant_refuted :
+  (forall c ds, length ds = 10%nat -> parse_fraction_nanos_table (c :: ds) = Panic site_frac_table) /\
+  (forall c ds, length ds <> 10%nat -> parse_fraction_nanos_table (c :: ds) = ParseTime.parse_fraction_nanos (c :: ds)) /\
+  (forall off t, parse_rfc3339_with ParseTime.parse_fraction_nanos off t = ParseTime.parse_rfc3339 off t) /\
+  ParseTime.transform_parse_time 0 (ts_with_fraction ten_digits) = ParseTime.TpSet 1565873449 123456789 /\
+  match process_record O (ex_cfg true true) g_init (new_conn (ex_cfg true true)) (1600000000, 0)%Z 0%Z rec_ten_digit_fraction with
+  | Ok (_, _, RPassed 0 [s] _) => s <> []
+  | _ => False
+  end /\
+  transform_parse_time_with parse_fraction_nanos_table 0 (ts_with_fraction ten_digits) = ParseTime.TpPanic site_frac_table /\
+  transform_parse_time_with parse_fraction_nanos_table 0 (ts_with_fraction (firstn 9 ten_digits)) = ParseTime.TpSet 1565873449 123456789 /\
+  transform_parse_time_with parse_fraction_nanos_table 0 (ts_with_fraction (ten_digits ++ [50]%N)) = ParseTime.TpSet 1565873449 123456789.
+Proof.
+  exact (conj table_variant_panics_at_10 (conj table_variant_agrees_elsewhere (conj parse_rfc3339_with_real fraction_table_variant_refuted))).
+Qed.
+Print Assumptions C07_fraction_table_variant_refuted.
